@@ -313,6 +313,7 @@ def run_batch(pid: str, tier: str, seed: int, max_runs: int, budget_s: float, wo
     shapes_nontrivial = set()
     shapes_all = set()
     cover = {}
+    cover_last_new = {}
     samples = []
     total_steps = 0
     sim_time = 0.0
@@ -371,7 +372,11 @@ def run_batch(pid: str, tier: str, seed: int, max_runs: int, budget_s: float, wo
                 for kk, nn_ in (res.get('known_suppressed') or {}).items():
                     out['known_hits'][kk] = out['known_hits'].get(kk, 0) + nn_
                 for cat, keys in (res.get('cover') or {}).items():
-                    cover.setdefault(cat, set()).update(keys)
+                    st = cover.setdefault(cat, set())
+                    before_n = len(st)
+                    st.update(keys)
+                    if len(st) > before_n:
+                        cover_last_new[cat] = n_done
                 fl = res['failures']
                 if fl:
                     f0 = fl[0]
@@ -465,6 +470,7 @@ def run_batch(pid: str, tier: str, seed: int, max_runs: int, budget_s: float, wo
         'seeds': {'VERIF_SEED': seed, 'run_indices': [0, next_run - 1] if n_done else []},
         'fault_and_probe_counters': dict(sorted(stats.items())),
         'distinct_reached': {cat: len(keys) for cat, keys in sorted(cover.items())},
+        'distinct_reached_last_new_after_n_runs': dict(sorted(cover_last_new.items())),
         'determinism_reruns_checked': det_checked,
         'known_finding_hits': out['known_hits'],
         'witnesses': witness_stats,
